@@ -560,6 +560,88 @@ def pieces(node):
     return out
 
 
+_UNQUOTED_BAD = set(" \t\n\x0c\r\"'=<>`")
+
+
+def variant(rng, node):
+    """The same conforming document in another conforming spelling: tag and attribute names of HTML elements in any
+    ASCII case, attribute values double-quoted / single-quoted / unquoted / empty-attribute syntax where the syntax allows
+    each, extra white space inside tags, '/>' on void and on childless foreign elements, character references in decimal,
+    hexadecimal or named form, doctype spellings, white space after the document.  The intended tree is unchanged
+    (apart from trailing white space, which a caller may ignore)."""
+    pcs = pieces(node)
+    out = []
+    skip_end = set()
+    raw_depth = []
+    for i, (text, t) in enumerate(pcs):
+        ty = t["type"]
+        if ty == "Doctype":
+            out.append(rng.choice(["<!DOCTYPE html>", "<!doctype html>", "<!DOCTYPE HTML>", "<!DocType html >", "<!DOCTYPE html\n>",
+                                   "<!DOCTYPE html SYSTEM \"about:legacy-compat\">", "<!doctype html system 'about:legacy-compat'>"]))
+            if rng.random() < 0.4:
+                out.append(rng.choice(["\n", " ", "\r\n"]))
+        elif ty in ("StartTag", "EmptyTag"):
+            html = t["namespace"] == HTML
+            name = t["name"]
+            if html and rng.random() < 0.3:
+                name = rng.choice([name.upper(), name.capitalize(), name])
+            parts = ["<", name]
+            last_unquoted = False
+            for (ns_, an), v in t["data"].items():
+                if html and ":" not in an and rng.random() < 0.25:
+                    an = rng.choice([an.upper(), an.capitalize()])
+                sp = rng.choice([" ", " ", "  ", "\n", "\t"])
+                r = rng.random()
+                last_unquoted = False
+                if v == "" and r < 0.5:
+                    parts.append(sp + an)
+                elif v and r < 0.25 and not (set(v) & _UNQUOTED_BAD):
+                    parts.append("%s%s=%s" % (sp, an, v.replace("&", "&amp;")))
+                    last_unquoted = True
+                elif r < 0.5 and "'" not in v:
+                    parts.append("%s%s%s'%s'" % (sp, an, rng.choice(["=", "=", " = "]), v.replace("&", "&amp;")))
+                else:
+                    parts.append("%s%s%s\"%s\"" % (sp, an, rng.choice(["=", "=", " ="]), esc_attr(v)))
+            childless_foreign = (not html and ty == "StartTag" and i + 1 < len(pcs) and pcs[i + 1][1]["type"] == "EndTag" and
+                                 name not in RAWNAMES and name not in ("title", "textarea"))
+            if (ty == "EmptyTag" or childless_foreign) and rng.random() < 0.5:
+                parts.append(" /" if last_unquoted or rng.random() < 0.5 else "/")
+                if childless_foreign:
+                    skip_end.add(i + 1)
+            elif rng.random() < 0.15:
+                parts.append(rng.choice([" ", "\n"]))
+            parts.append(">")
+            out.append("".join(parts))
+            if ty == "StartTag" and html and t["name"] in RAW:
+                raw_depth.append(t["name"])
+        elif ty == "EndTag":
+            if i in skip_end:
+                continue
+            if raw_depth and t["namespace"] == HTML and raw_depth[-1] == t["name"]:
+                raw_depth.pop()
+            nm = t["name"]
+            if t["namespace"] == HTML and rng.random() < 0.3:
+                nm = nm.upper()
+            out.append("</%s%s>" % (nm, rng.choice(["", "", "", " ", "\n"])))
+        elif ty in ("Characters", "SpaceCharacters"):
+            if raw_depth:
+                out.append(text)
+                continue
+            o = []
+            for k, c in enumerate(text):
+                o.append(c)
+            s2 = "".join(o)
+            # text is already escaped by pieces(): vary the spelling of the references
+            s2 = s2.replace("&lt;", rng.choice(["&lt;", "&#60;", "&#x3c;", "&#x3C;", "&LT;"]))
+            s2 = s2.replace("&amp;", rng.choice(["&amp;", "&#38;", "&#x26;", "&AMP;"]))
+            s2 = s2.replace("&gt;", rng.choice(["&gt;", ">", "&#62;", "&GT;"]))
+            out.append(s2)
+        else:
+            out.append(text)
+    tail = rng.choice(["", "", "\n", "\r\n", " \n"])
+    return "".join(out) + tail, bool(tail)
+
+
 def flat(node):
     out = []
     stack = [(node, 0)]
